@@ -1230,26 +1230,43 @@ func (s *sim) checkAccessors(box *stateBox, where string) {
 		if err == nil {
 			var mutate func()
 			var serr error
+			var wantHeader interface{}
 			set := false
 			switch cs := c.(type) {
 			case interface {
 				SetLatestExecutionPayloadHeader(h *deneb.ExecutionPayloadHeader) error
 			}:
-				h := &deneb.ExecutionPayloadHeader{ParentHash: fnvRoot("ealias", 1), StateRoot: fnvRoot("ealias", 2), BlockHash: fnvRoot("ealias", 3), Timestamp: 99}
+				h := &deneb.ExecutionPayloadHeader{ParentHash: fnvRoot("ealias", 1), StateRoot: fnvRoot("ealias", 2), ReceiptsRoot: fnvRoot("ealias", 5), PrevRandao: fnvRoot("ealias", 6), BlockNumber: 11, GasLimit: 12, GasUsed: 13, Timestamp: 99, BlockHash: fnvRoot("ealias", 3), TransactionsRoot: fnvRoot("ealias", 7), WithdrawalsRoot: fnvRoot("ealias", 8), BlobGasUsed: 14, ExcessBlobGas: 15}
+				h.BaseFeePerGas[0], h.FeeRecipient[3] = 16, 17
 				serr, set = cs.SetLatestExecutionPayloadHeader(h), true
+				stored := *h
+				wantHeader = &stored
 				mutate = func() { h.BlockHash = fnvRoot("ealias", 4); h.ParentHash[0] ^= 0xff }
 			case interface {
 				SetLatestExecutionPayloadHeader(h *capella.ExecutionPayloadHeader) error
 			}:
-				h := &capella.ExecutionPayloadHeader{ParentHash: fnvRoot("ealias", 1), StateRoot: fnvRoot("ealias", 2), BlockHash: fnvRoot("ealias", 3), Timestamp: 99}
+				h := &capella.ExecutionPayloadHeader{ParentHash: fnvRoot("ealias", 1), StateRoot: fnvRoot("ealias", 2), ReceiptsRoot: fnvRoot("ealias", 5), PrevRandao: fnvRoot("ealias", 6), BlockNumber: 11, GasLimit: 12, GasUsed: 13, Timestamp: 99, BlockHash: fnvRoot("ealias", 3), TransactionsRoot: fnvRoot("ealias", 7), WithdrawalsRoot: fnvRoot("ealias", 8)}
+				h.BaseFeePerGas[0], h.FeeRecipient[3] = 16, 17
 				serr, set = cs.SetLatestExecutionPayloadHeader(h), true
+				stored := *h
+				wantHeader = &stored
 				mutate = func() { h.BlockHash = fnvRoot("ealias", 4); h.ParentHash[0] ^= 0xff }
 			case interface {
 				SetLatestExecutionPayloadHeader(h *bellatrix.ExecutionPayloadHeader) error
 			}:
-				h := &bellatrix.ExecutionPayloadHeader{ParentHash: fnvRoot("ealias", 1), StateRoot: fnvRoot("ealias", 2), BlockHash: fnvRoot("ealias", 3), Timestamp: 99}
+				h := &bellatrix.ExecutionPayloadHeader{ParentHash: fnvRoot("ealias", 1), StateRoot: fnvRoot("ealias", 2), ReceiptsRoot: fnvRoot("ealias", 5), PrevRandao: fnvRoot("ealias", 6), BlockNumber: 11, GasLimit: 12, GasUsed: 13, Timestamp: 99, BlockHash: fnvRoot("ealias", 3), TransactionsRoot: fnvRoot("ealias", 7)}
+				h.BaseFeePerGas[0], h.FeeRecipient[3] = 16, 17
 				serr, set = cs.SetLatestExecutionPayloadHeader(h), true
+				stored := *h
+				wantHeader = &stored
 				mutate = func() { h.BlockHash = fnvRoot("ealias", 4); h.ParentHash[0] ^= 0xff }
+			}
+			if set && serr == nil && wantHeader != nil {
+				// the state now holds exactly the header given, every field in its own place
+				if got := reflect.ValueOf(s.rawOf(c)).Elem().FieldByName("LatestExecutionPayloadHeader"); got.IsValid() && !reflect.DeepEqual(got.Interface(), reflect.ValueOf(wantHeader).Elem().Interface()) {
+					s.viol("C15", "setter-value/LatestExecutionPayloadHeader", fmt.Sprintf("%s (%s): SetLatestExecutionPayloadHeader(%+v): the state now holds %+v", where, forkName(st), reflect.ValueOf(wantHeader).Elem().Interface(), got.Interface()))
+					return
+				}
 			}
 			if set && serr == nil {
 				r1 := c.HashTreeRoot(tree.GetHashFn())
